@@ -352,11 +352,14 @@ def prove(body, bb, goal_x, goal_y, k, extra_exprs=()):
                 c.add(a, b, kk)
             for (a, b, kk) in range_facts(body, t, bb):
                 c.add(a, b, kk)
-    for t in list(c.nodes):
+    for t in [X[0], Y[0]] + list(c.nodes):
         if bounds._is_len_term(t):
             c.nonneg(t)
         if isinstance(t, tuple) and t and t[0] == "chars":
             c.add((t, 0), (("len", t[1]), 0), 0)
+        if isinstance(t, tuple) and t and t[0] == "call" and last_seg(t[1]) == "len_utf8":
+            c.add((ZERO, 1), (t, 0), 0)       # a char encodes to 1..=4 bytes
+            c.add((t, 0), (ZERO, 4), 0)
     c.close()
     return c.holds(X, Y, k), n
 
@@ -980,11 +983,27 @@ def fixpoint_guarded(body, h, blocks, exits):
     return True, None
 
 
+_NEG = {"Lt": "Ge", "Ge": "Lt", "Gt": "Le", "Le": "Gt", "Eq": "Ne", "Ne": "Eq"}
+
+
+def _positive(atom, val):
+    """the same condition with a canonical polarity: comparisons are stated positively (`a > b` for `!(a <= b)`),
+    `ne(..)` becomes `eq(..)` with the value flipped, whatever trait path the call resolved to"""
+    if atom[0] == "bin" and atom[1] in _NEG and val is False:
+        return ("bin", _NEG[atom[1]]) + tuple(atom[2:]), True
+    if atom[0] == "call" and last_seg(atom[1]) == "ne" and isinstance(val, bool):
+        return ("call", "eq") + tuple(atom[2:]), (not val)
+    if atom[0] == "call" and last_seg(atom[1]) == "eq":
+        return ("call", "eq") + tuple(atom[2:]), val
+    return atom, val
+
+
 def loop_desc(body, h, blocks, exits):
     """position-free description of a loop: its exit conditions"""
     conds = []
     for a, b in exits:
-        cs = ["%s=%s" % (mir.render_key(atom)[:70], val) for tgt, atom, val in body.switch_edges(a) if tgt == b]
+        cs = ["%s=%s" % (mir.render_key(at)[:70], v) for at, v in
+              (_positive(strip_sites(atom), val) for tgt, atom, val in body.switch_edges(a) if tgt == b)]
         conds.append(" & ".join(cs) if cs else "always")
     return " | ".join(sorted(set(conds)))[:400]
 
